@@ -489,12 +489,36 @@ def N11():
         return 'from_sequence(..., dim=2, slice_dim=2) of extensions whose own slice_dim is None -> TypeError'
 
 
+def N13():
+    A = np.array([[0, 3, 0, 1], [2, 0, 0, -5], [0, 0, 3.5, 9], [0, 0, 0, 1.]])
+    data = np.arange(2 * 4 * 5).reshape(2, 4, 5).astype(np.int16)
+    img = nb.Nifti1Image(data, A); img.header.set_dim_info(slice=0)
+    w = NiftiWrapper(img, make_empty=True)
+    w.meta_ext.get_class_dict(('global', 'slices'))['SlicePos'] = ['first', 'second']
+    A2 = A.copy(); A2[:3, 0] = -A[:3, 0]; A2[:3, 3] = A[:3, 3] + A[:3, 0]
+    img2 = nb.Nifti1Image(data[::-1].copy(), A2, img.header); img2.header.set_dim_info(slice=0)
+    w2 = NiftiWrapper(img2, make_empty=True); w2.meta_ext = w.meta_ext
+    got = w2.get_meta('SlicePos', (0, 0, 0), default='DEFAULT')
+    if got != 'DEFAULT':
+        return 'slice axis flipped (off-diagonal affine): lookup at new slice 0 (= old slice 1) returns %r instead of the default' % (got,)
+
+
+def N14():
+    e = DcmMetaExtension.make_empty((2, 2, 1, 2), np.eye(4), None, 2)
+    e.get_class_dict(('time', 'slices'))['k'] = [1, 2, 3]
+    try:
+        e.check_valid()
+    except dcmmeta.InvalidExtensionError:
+        return None
+    return "check_valid accepts 3 values under ('time','slices') for shape (2,2,1,2) (multiplicity 1 classes are not inspected)"
+
+
 def deepcopy_ext(e):
     from copy import deepcopy
     return deepcopy(e)
 
 
-OPEN = ['N1', 'N2', 'N3', 'N4', 'N6', 'N8', 'N9', 'N11']
+OPEN = ['N1', 'N2', 'N3', 'N4', 'N6', 'N8', 'N9', 'N11', 'N13', 'N14']
 ALL = ['F23', 'F22', 'F21', 'F20', 'F19', 'F18', 'F17', 'F16', 'F15', 'F1', 'F2', 'F3', 'F4', 'F5', 'F6', 'F7', 'F8', 'F9', 'F10', 'F11', 'F12', 'F13', 'F14']
 
 if __name__ == '__main__':
